@@ -477,6 +477,10 @@ func (s *Scheme) Sign(c context.Context, msgHash []byte, topic string) ([]byte, 
 		signingProtocol, err := s.prepareSigning(membership, partyIDs, topicHash, UIntsToUniversalIDs(signers))
 		if err != nil {
 			s.Logger.Errorf("Failed initializing signing instance: %v", err)
+			resultChan <- struct {
+				sig []byte
+				err error
+			}{err: err}
 			return
 		}
 
@@ -531,6 +535,13 @@ func (s *Scheme) Sign(c context.Context, msgHash []byte, topic string) ([]byte, 
 	if err != nil {
 		return nil, err
 	}
+
+	// Whichever way we return, no state of this signing session may be left behind.
+	// The context is cancelled first, so that whatever still runs on behalf of the session can tell it is over.
+	defer func() {
+		cancel()
+		cleanup()
+	}()
 
 	go func() {
 		if err := sync.Synchronize(ctx, initializeSigningInstance, topicHash, s.Threshold+1, SyncInterval); err != nil {
